@@ -492,4 +492,6 @@ class RadialProfile(ProfileBase):
         """
         The raw data profile as a 1D `~numpy.ndarray`.
         """
-        return self._data_profile[1]
+        # apply any normalization that is already in effect so that the
+        # result does not depend on when this array is first evaluated
+        return self._data_profile[1] / self.normalization_value
